@@ -43,6 +43,8 @@ CONSTS = {
         dict(Pool="{1, 2, 3, 4, 5}", MaxComps=4, MaxFlows=5, OutKinds="{1, 2}", FlowKinds="{1}", MaxOps=3, Thin=512, FullDepth=0, SeedThin=6, SeedThinFrom=3, SeedAscending="FALSE", SeedInputs="TRUE", EmitConfluence="TRUE", SampleMod=64),
         # nonlinear flows between compartments
         dict(Pool="{1, 2, 5}", MaxComps=3, MaxFlows=3, OutKinds="{1}", FlowKinds="{1, 2, 3}", MaxOps=2, Thin=64, FullDepth=1, SeedThin=1, SeedThinFrom=9, SeedAscending="FALSE", SeedInputs="TRUE", EmitConfluence="FALSE", SampleMod=32),
+        # the 4-compartment second-order family of the quick tier (confluences outside the dosing-reachable part)
+        dict(Pool="{1, 2, 4, 5}", MaxComps=4, MaxFlows=3, OutKinds="{1}", FlowKinds="{4}", MaxOps=0, Thin=1, FullDepth=0, SeedThin=1, SeedThinFrom=9, SeedAscending="TRUE", SeedInputs="FALSE", EmitConfluence="TRUE", SampleMod=8),
     ],
 }
 COV = dict(Pool="{1, 2}", MaxComps=2, MaxFlows=1, OutKinds="{1, 2}", FlowKinds="{3}", MaxOps=1, Thin=4, FullDepth=0, SeedThin=1, SeedThinFrom=9, SeedAscending="FALSE", SeedInputs="TRUE", EmitConfluence="FALSE", SampleMod=1000003)
